@@ -129,12 +129,15 @@ CHECKS = {
         text=("Theorems (Props/C10.lean), about errors() as repaired by the fix: commits for defects D4 and D5: errors_nil_iff; "
               "single_bounds (an accepted model gives every id one pair of bounds), single_definition + sameDef_spec (every "
               "sub-proposition id one sign, value and child-id list), no_duplicate_child (no node lists a child twice; through "
-              "the representative lemma for flatten()'s de-duplication); conversely distinct_ids_not_ambivalent (neither "
-              "ambivalence check fires on a tree with pairwise distinct ids). Tie: errors() compared with the model (accept/"
+              "the representative lemma for flatten()'s de-duplication); conversely shared_identical_accepted / "
+              "distinct_ids_accepted — a model in which one id always means one and the same sub-proposition (shared objects, "
+              "identical copies, or pairwise distinct ids) and no node lists a child twice passes both ambivalence checks and "
+              "the duplicate-edge check (flatten()'s de-duplication leaves pairwise distinct ids, edges of distinct parents "
+              "differ), hence is accepted when its id graph is acyclic. Tie: errors() compared with the model (accept/"
               "reject and error kinds) on a valid stream and an adversarial stream (duplicated child, reused ids with "
               "different bounds/sign/value/children, equal-sum bounds, -1/-2 bounds, '-' in ids, leaf named like a compound, "
-              "self reference, cycles); oracle: an independent validator implementing the statement on the snapshot."),
-        note="PARTIAL at the theorem level: the cycle clause (id graph with dict override, decided by graphlib) and the duplicate-edge check's completeness on distinct-id trees are modelled and tied but not proved. Defects D4 and D5 were found by this check and repaired.",
+              "self reference, cycles, generated-id coincidences across parents, same-id nodes whose children swap bounds of equal sum); oracle: an independent validator implementing the statement on the snapshot."),
+        note="The cycle clause (id graph with dict override, decided by graphlib) is modelled (reachability with fuel) and tied, not proved: acyclicity enters the completeness theorems as a hypothesis. Defects D4 and D5 were found by this check and repaired.",
         technique="Lean 4 theorem (list lemmas over the non-deduplicating walk) + differential correspondence on adversarial models + independent validator",
         ref="§4 C10"),
     "C11": dict(
